@@ -322,6 +322,10 @@ func (r *relay) processFrame(f http2.Frame) error {
 			r.continuationState = nil
 			err = state.complete(r.processor(f.StreamID), headers)
 		}
+	case *http2.UnknownFrame:
+		// Frames of a type this implementation does not know are ignored.
+		// See: https://tools.ietf.org/html/rfc7540#section-4.1
+		log.Debugf("h2: ignoring frame of unknown type %v", f.Header().Type)
 	default:
 		err = errors.New("unrecognized frame type")
 	}
